@@ -341,6 +341,7 @@ func (d *DataChannel) handleOpen(dc *datachannel.DataChannel, isRemote, isAlread
 		if err := dc.Close(); err != nil {
 			d.log.Errorf("Failed to close DataChannel that was closed during connecting state %v", err.Error())
 		}
+		d.setReadyState(DataChannelStateClosed)
 		d.onClose()
 
 		return
@@ -368,11 +369,15 @@ func (d *DataChannel) handleOpen(dc *datachannel.DataChannel, isRemote, isAlread
 	}
 
 	d.mu.Lock()
-	defer d.mu.Unlock()
+	if d.isGracefulClosed { // closed while opening: there is no read loop that would report the end
+		d.mu.Unlock()
+		_ = dc.Close()
+		d.setReadyState(DataChannelStateClosed)
+		d.onClose()
 
-	if d.isGracefulClosed {
 		return
 	}
+	defer d.mu.Unlock()
 
 	if !d.api.settingEngine.detach.DataChannels {
 		d.readLoopActive = make(chan struct{})
@@ -774,6 +779,16 @@ func (d *DataChannel) collectStats(collector *statsReportCollector) {
 	collector.Collect(stats.ID, stats)
 }
 
+// setReadyState only moves the state forward (connecting -> open -> closing -> closed):
+// a store that would move it back, because its caller decided on a stale value, is dropped.
 func (d *DataChannel) setReadyState(r DataChannelState) {
-	d.readyState.Store(r)
+	for {
+		old := d.readyState.Load()
+		if cur, ok := old.(DataChannelState); ok && cur >= r {
+			return
+		}
+		if d.readyState.CompareAndSwap(old, r) {
+			return
+		}
+	}
 }
